@@ -218,6 +218,60 @@ pub fn main(args: &[String]) {
         err_units += b;
     }
     problems.truncate(40);
+    // context rules and the standard classes on padded labels (CtxPadLaw / AllowsPadLaw of MC_Context.tla): offsets
+    // far beyond 255 / 65535 characters
+    let mut ctx_calls = 0u64;
+    if args.iter().any(|a| a == "--ctx") {
+        let ctx_mids: [&str; 16] = [
+            "\u{200d}", "\u{94d}\u{200d}", "\u{628}\u{200c}\u{628}", "\u{628}\u{64e}\u{200c}\u{64e}\u{627}", "\u{200c}", "\u{94d}\u{200c}", "l\u{b7}l", "l\u{b7}", "\u{b7}l",
+            "\u{375}\u{3b1}", "\u{375}", "\u{5d0}\u{5f3}", "\u{5f4}", "\u{661}\u{6f1}", "\u{30fb}\u{30ab}", "\u{30fb}",
+        ];
+        let mut labels: Vec<String> = units.iter().cloned().collect();
+        for (i, mid) in ctx_mids.iter().enumerate() {
+            for (h, t) in [(0x61u32, 0x7au32), (CANDIDATES[(i * 3 + 2) % CANDIDATES.len()], CANDIDATES[(i * 5 + 7) % CANDIDATES.len()])] {
+                labels.push(format!("{}{}{}", char::from_u32(h).unwrap(), mid, char::from_u32(t).unwrap()));
+            }
+        }
+        for u in labels.iter() {
+            let chars: Vec<char> = u.chars().collect();
+            if chars.len() < 3 {
+                continue;
+            }
+            let (h, t) = (chars[0], chars[chars.len() - 1]);
+            for (x, i) in PAD_BYTES.iter().chain([65535usize, 65536, 70000].iter()).enumerate() {
+                let j = if x % 2 == 0 { 0 } else { 3 };
+                let padded: String = std::iter::repeat(h).take(*i).chain(chars.iter().cloned()).chain(std::iter::repeat(t).take(j)).collect();
+                for k in 1..chars.len() - 1 {
+                    // every rule at a character that has a rule registered, one (rotating) rule elsewhere
+                    let contextual = !registry_obs(chars[k] as u32).is_empty();
+                    for rule in CTX_RULES.iter().filter(|r| contextual || (k + x) % 8 == CTX_RULES.iter().position(|q| q == *r).unwrap()) {
+                        let r1 = call_ctx(rule, u, k);
+                        let got = call_ctx(rule, &padded, k + i);
+                        ctx_calls += 2;
+                        if got != r1 && problems.len() < 40 {
+                            problems.push(json!({"ctx_rule": rule, "label": string_to_cps(u), "offset": k, "pad_front": i, "pad_back": j,
+                                                 "expected": r1, "actual": got}));
+                        }
+                    }
+                }
+                for cls in ["Id", "Ff"] {
+                    let r1 = call_allows(cls, u);
+                    let mut exp = r1.clone();
+                    if let Some(pos) = r1.get("pos").and_then(|p| p.as_u64()) {
+                        exp["pos"] = json!(pos + *i as u64);
+                    }
+                    let got = call_allows(cls, &padded);
+                    ctx_calls += 2;
+                    if got != exp && problems.len() < 40 {
+                        problems.push(json!({"allows": cls, "label": string_to_cps(u), "pad_front": i, "pad_back": j, "expected": exp, "actual": got}));
+                    }
+                }
+            }
+        }
+        std::fs::write(format!("{}/units.ndjson", dir), labels.iter().map(|s| string_to_cps(s).to_string() + "\n").collect::<String>())
+            .unwrap_or_else(|e| tool_error(&e.to_string()));
+    }
+    calls += ctx_calls;
     for p in problems.iter() {
         println!("{}", json!({ "problem": p }));
     }
